@@ -297,6 +297,11 @@ func genQueryScenario(prop string, seed uint64, tier string) (*Scenario, *qMeta)
 			m.NA = r.Pick(159, 160, 161, 239, 240, 241, 319, 320, 321, 639, 640, 641) // straddle 80*k
 		}
 		m.NB = r.Range(0, 30)
+		if prop == "C13" && tier != "thorough" && m.NA > 330 {
+			// under the race detector an evaluation over 700 rows (several --cpu values x schedules x
+			// user-defined aggregates) takes minutes: the quick tier keeps to four workers' worth of rows
+			m.NA = 160 + m.NA%170
+		}
 	} else {
 		m.NA = r.Range(0, 24)
 		m.NB = r.Range(0, 12)
